@@ -470,7 +470,7 @@ func allStrings(alpha []rune, maxLen int) []string {
 }
 
 type c18Stats struct {
-	combos, treeEq, progEq, compiled, errBoth, evals int
+	combos, treeEq, progEq, compiled, errBoth, evals, inconclusive int
 	progDiff                                          []string
 }
 
@@ -552,6 +552,10 @@ func c18CheckPattern(c *Ctx, kind, p, p4, p4close string, o0 syntax.RegexOptions
 					}
 					st.evals++
 					r1, r2 := c18Result(s.ref.re, in), c18Result(got.re, in)
+					if strings.Contains(r1, "err:") || strings.Contains(r2, "err:") {
+						st.inconclusive++ // a resource limit (match timeout, backtracking stack) was hit: load dependent
+						continue
+					}
 					if r1 != r2 {
 						cs.Direct = fmt.Sprintf("on input %+q the reference spelling gives %s, this spelling %s", in, r1, r2)
 					}
@@ -707,5 +711,6 @@ func legC18Harvest(c *Ctx) {
 	c.res.Histogram["program-equal"] = st.progEq
 	c.res.Histogram["both-fail"] = st.errBoth
 	c.res.Histogram["match-evaluations"] = st.evals
+	c.res.Histogram["resource-limit-inconclusive"] = st.inconclusive
 	c.Gate("most spellings compile", st.compiled > st.combos/2)
 }
